@@ -99,7 +99,7 @@ fn build(ch: &mut Chooser, anchor: (u32, u32), positions: &[(u32, u32)], thoroug
     sheet.preamble = !ch.flag("no-optional-blocks-before-sheetdata");
     if ch.flag("cell-fPhShow-bit-set") { sheet.cell_flags = 1; }
     if sheet.preamble { sheet.preamble_bulk = ch.choose("bulk-in-the-skipped-blocks-before-sheet-data(none,600-area selection,1000-area selection,410 column infos)", 4) as u8; }
-    let book = BBook { sheets: vec![sheet, BSheet::new("Other", vec![BItem::Cell { row: 3, col: 2, style: 0, val: BVal::Real(9.0) }])], sst: SST.iter().map(|s| s.to_string()).collect(), sst_total_refs: [None, Some(1), Some(977)][ch.choose("sst-reference-count(equal to the item count,smaller,larger)", 3)], rel_ids_non_ascii: ch.flag("relationship-ids-with-non-ascii-letters"), sst_extra: if ch.flag("shared-strings-carry-rich-runs-and-phonetic-data") { (0..SST.len()).map(|i| (i % 3, if i % 2 == 1 { Some("ph".to_string()) } else { None })).collect() } else { vec![] }, ..Default::default() };
+    let book = BBook { sheets: vec![sheet, BSheet::new("Other", vec![BItem::Cell { row: 3, col: 2, style: 0, val: BVal::Real(9.0) }])], sst: SST.iter().map(|s| s.to_string()).collect(), sst_total_refs: [None, Some(1), Some(977)][ch.choose("sst-reference-count(equal to the item count,smaller,larger)", 3)], rel_ids_non_ascii: ch.flag("relationship-ids-with-non-ascii-letters"), rels_end_tags: ch.flag("relationship-elements-with-explicit-end-tags"), sst_extra: if ch.flag("shared-strings-carry-rich-runs-and-phonetic-data") { (0..SST.len()).map(|i| (i % 3, if i % 2 == 1 { Some("ph".to_string()) } else { None })).collect() } else { vec![] }, ..Default::default() };
     let bytes = write(&book, if ch.flag("zip-stored") { Method::Stored } else { Method::Deflated });
     let d = json!({"cells": desc, "stream": items.iter().map(|i| match i { BItem::Cell { row, col, val, .. } => format!("cell({row},{col}) {}", format!("{val:?}").chars().take(24).collect::<String>()), BItem::Raw(t, d) => format!("rec {t:#06x} len {}", d.len()) }).collect::<Vec<_>>()});
     (bytes, exp, d)
